@@ -543,9 +543,11 @@ func (env *verifEnv) c04PeerSection(t *testing.T, res *verifResult) string {
 				reasons = append(reasons, fmt.Sprintf("%q: the loaded configuration does not carry the value", v))
 				continue
 			}
-			ps.matrix(a, b, verifThorough(), k.name, v)
-			if verifThorough() {
-				ps.matrix(b, a, true, k.name, v)
+			// quick: the reduced matrix for the first value both loaders accept; thorough: every accepted
+			// value, the first one with all consumers and the reduced matrix the other way round
+			ps.matrix(a, b, verifThorough() && !done, k.name, v)
+			if verifThorough() && !done {
+				ps.matrix(b, a, false, k.name, v)
 			}
 			used = append(used, fmt.Sprintf("%s=%s", k.name, v))
 			res.bump("peer-knob:exercised")
@@ -602,29 +604,47 @@ func (env *verifEnv) c04PeerSection(t *testing.T, res *verifResult) string {
 		}
 		sb.WriteString(" " + env.coqToken(s) + sep + "\n")
 	}
-	sb.WriteString("].\nDefinition peer_cases : list peer_case := [\n")
+	sb.WriteString("].\n")
+	// sharded: one list literal of tens of thousands of tuples overflows coqc's stack (thorough tier)
+	const shard = 1500
 	var idx strings.Builder
-	for i, c := range ps.cases {
-		sep := ";"
-		if i == len(ps.cases)-1 {
-			sep = ""
+	var shardNames []string
+	for i0 := 0; i0 < len(ps.cases); i0 += shard {
+		end := i0 + shard
+		if end > len(ps.cases) {
+			end = len(ps.cases)
 		}
-		o := c.obs
-		user := "None"
-		if o.hasUser {
-			user = "Some " + coqStr(o.user)
+		name := fmt.Sprintf("peer_cases%d", i0/shard)
+		shardNames = append(shardNames, name)
+		sb.WriteString("Definition " + name + " : list peer_case := [\n")
+		for i := i0; i < end; i++ {
+			c := ps.cases[i]
+			sep := ";"
+			if i == end-1 {
+				sep = ""
+			}
+			o := c.obs
+			user := "None"
+			if o.hasUser {
+				user = "Some " + coqStr(o.user)
+			}
+			var em []string
+			for _, e := range o.emitted {
+				em = append(em, c.emEnv.coqClaims(newSymTok(e, 0, false, "")))
+			}
+			sb.WriteString(fmt.Sprintf(" (%d%%nat, (%d%%nat, %s, (%d)%%Z, (%d)%%Z, %s, %s, [%s]))%s\n", c.site, c.tok, c.term, o.t0, o.t1, coqBool(o.ok), user, strings.Join(em, "; "), sep))
+			idx.WriteString(fmt.Sprintf("%d\t%s\tok=%v status=%d user=%q emitted=%d site=%d tok=%d %s\n", i, c.label, o.ok, o.status, o.user, len(o.emitted), c.site, c.tok, ps.toks[c.tok].raw))
 		}
-		var em []string
-		for _, e := range o.emitted {
-			em = append(em, c.emEnv.coqClaims(newSymTok(e, 0, false, "")))
-		}
-		sb.WriteString(fmt.Sprintf(" (%d%%nat, (%d%%nat, %s, (%d)%%Z, (%d)%%Z, %s, %s, [%s]))%s\n", c.site, c.tok, c.term, o.t0, o.t1, coqBool(o.ok), user, strings.Join(em, "; "), sep))
-		idx.WriteString(fmt.Sprintf("%d\t%s\tok=%v status=%d user=%q emitted=%d site=%d tok=%d %s\n", i, c.label, o.ok, o.status, o.user, len(o.emitted), c.site, c.tok, ps.toks[c.tok].raw))
+		sb.WriteString("].\n")
 	}
-	sb.WriteString("].\nDefinition peer_scanned := Eval vm_compute in peer_scan peer_idps peer_toks peer_cases.\n")
+	if len(shardNames) == 0 {
+		shardNames = []string{"[]"}
+	}
+	sb.WriteString("Definition peer_cases : list peer_case := " + strings.Join(shardNames, " ++ ") + ".\n")
+	sb.WriteString("Definition peer_scanned := Eval vm_compute in peer_scan peer_idps peer_toks peer_cases.\n")
 	sb.WriteString("Definition c04_peer_mismatches := Eval vm_compute in fst peer_scanned.\nPrint c04_peer_mismatches.\n")
 	sb.WriteString("Definition c04_peer_violating := Eval vm_compute in snd peer_scanned.\nPrint c04_peer_violating.\n")
-	sb.WriteString("Definition c04_npeer := Eval vm_compute in length peer_cases.\nPrint c04_npeer.\n")
+	sb.WriteString("Definition c04_npeer := Eval vm_compute in N.of_nat (length peer_cases).\nPrint c04_npeer.\n")
 	ioutil.WriteFile(filepath.Join(verifOut(), "CasesC04peer.idx"), []byte(idx.String()), 0644)
 	ioutil.WriteFile(filepath.Join(verifOut(), "CasesC04sites.idx"), []byte(sidx.String()), 0644)
 	_ = json.Marshal
